@@ -6,6 +6,7 @@ links to files / directories / parents / nothing, FIFOs, invalid UTF-8; argument
 Observation: CompilationState.files from compile_from_options (library worker), E001 / DuplicateFile diagnostics, the AST
 node histogram ("nothing is parsed"), and for a sample the paths inside the request captured from the real binary.
 """
+import json
 import os
 import random
 import shutil
@@ -202,7 +203,92 @@ def spell(rng, cwd, rel):
     return os.path.join(os.path.dirname(rel) or ".", ".", os.path.basename(rel))
 
 
+def run_permissions(ctx):
+    """Entries that cannot be read / searched / examined, exercised as an unprivileged user (root ignores permission bits):
+    each is reported as an I/O error naming a path at or below the inaccessible entry, the run fails, and the accessible
+    control compiles. Skipped (counted, not failed) where `setpriv` cannot drop privileges."""
+    import shutil
+    import stat
+    import subprocess
+    drop = ["setpriv", "--reuid=65534", "--regid=65534", "--clear-groups"]
+    if os.geteuid() != 0 or shutil.which("setpriv") is None or \
+            subprocess.run(drop + ["true"], stdout=subprocess.DEVNULL, stderr=subprocess.DEVNULL).returncode != 0:
+        ctx.stats["permission_cases_skipped"] += 1
+        return
+    base = ctx.tmpdir()
+    # the scratch chain must be searchable by the unprivileged user; the binary is copied next to the cases
+    d = base
+    while d not in ("/", ""):
+        try:
+            os.chmod(d, os.stat(d).st_mode | 0o055)
+        except OSError:
+            pass
+        d = os.path.dirname(d)
+    binary = os.path.join(base, "slicec-copy")
+    shutil.copy(ctx.paths["slicec"], binary)
+    os.chmod(binary, 0o755)
+    if subprocess.run(drop + [binary, "--version"], stdout=subprocess.DEVNULL, stderr=subprocess.DEVNULL).returncode != 0:
+        ctx.stats["permission_cases_skipped"] += 1
+        return
+    good = "module R\nstruct Fine { a: bool }\n"
+    cases = {
+        # name: (build function, argv, path prefix that an E001 must name, or None for the control)
+        "control": (lambda r: None, ["ok.slice", "-R", "refs"], None),
+        "unsearchable-reference-directory": (lambda r: os.chmod(os.path.join(r, "refs"), 0o644), ["ok.slice", "-R", "refs"], "refs"),
+        "unreadable-reference-subdirectory": (lambda r: os.chmod(os.path.join(r, "refs", "sub"), 0o311), ["ok.slice", "-R", "refs"], "refs/sub"),
+        "unsearchable-reference-subdirectory": (lambda r: os.chmod(os.path.join(r, "refs", "sub"), 0o644), ["ok.slice", "-R", "refs"], "refs/sub"),
+        "unreadable-reference-file": (lambda r: os.chmod(os.path.join(r, "refs", "r.slice"), 0o000), ["ok.slice", "-R", "refs"], "refs/r.slice"),
+        "unreadable-reference-file-listed": (lambda r: os.chmod(os.path.join(r, "refs", "r.slice"), 0o000), ["ok.slice", "-R", "refs/r.slice"], "refs/r.slice"),
+        "unreadable-source-file": (lambda r: os.chmod(os.path.join(r, "ok.slice"), 0o000), ["ok.slice", "-R", "refs"], "ok.slice"),
+        "unreadable-reference-directory": (lambda r: os.chmod(os.path.join(r, "refs"), 0o311), ["ok.slice", "-R", "refs"], "refs"),
+    }
+    for name, (prepare, argv, must_name) in cases.items():
+        root = os.path.join(base, "perm-" + name)
+        os.makedirs(os.path.join(root, "refs", "sub"))
+        for rel, text in (("ok.slice", "module M\nstruct S { a: bool }\n"), ("refs/r.slice", good), ("refs/sub/deep.slice", good.replace("module R", "module R2"))):
+            with open(os.path.join(root, rel), "w") as f:
+                f.write(text)
+        for dp, dn, fn in os.walk(root):
+            os.chmod(dp, 0o755)
+            for x in fn:
+                os.chmod(os.path.join(dp, x), 0o644)
+        prepare(root)
+        p = subprocess.run(drop + [binary, "--dry-run", "--diagnostic-format", "json"] + argv, cwd=root, stdout=subprocess.PIPE, stderr=subprocess.PIPE)
+        # restore, so that the scratch tree can be removed
+        for dp, dn, fn in os.walk(root):
+            os.chmod(dp, 0o755)
+        os.chmod(os.path.join(root, "refs"), 0o755)
+        os.chmod(os.path.join(root, "refs", "sub"), 0o755)
+        ctx.note_case(("perm", name))
+        ctx.stats["permission_cases"] += 1
+        err = p.stderr.decode("utf-8", "replace")
+        replay = {"kind": "binary", "as_user": "uid 65534 (setpriv)", "case": name, "argv": argv, "status": p.returncode, "stderr": err[:600]}
+        if p.returncode < 0 or b"panicked at" in p.stderr:
+            ctx.violate("crash:inaccessible-entry", "slicec crashed on %s: %s" % (name, err[:200]), replay)
+            continue
+        e001 = []
+        for line in err.splitlines():
+            try:
+                o = json.loads(line)
+            except ValueError:
+                continue
+            if o.get("error_code") == "E001":
+                e001.append(o["message"])
+        if must_name is None:
+            if p.returncode != 0:
+                ctx.violate("accessible-tree-rejected", "the accessible control tree was rejected as an unprivileged user: %s" % err[:200], replay)
+            continue
+        if p.returncode == 0 or not e001:
+            ctx.violate("io-error-not-reported:" + name, "%s: exit status %d, %d I/O errors - the inaccessible entry was skipped silently"
+                        % (name, p.returncode, len(e001)), replay)
+            continue
+        if not any(("'" + must_name) in m or ("/" + must_name) in m for m in e001):
+            ctx.violate("io-error-names-other-path:" + name, "%s: I/O errors %r name no path at or below %s" % (name, e001[:2], must_name), replay)
+
+
 def run_shard(ctx, spec):
+    if spec[0] == "permissions":
+        return run_permissions(ctx)
     _, count, idx = spec
     rng = ctx.rng("t/%d" % idx)
     tmp = ctx.tmpdir()
@@ -379,7 +465,7 @@ def judge(ctx, root, argv, sources, references, tree, schema, use_binary):
 
 def plan(tier, seed):
     n = 3000 if tier == "quick" else 30000
-    return [("trees", n // 16, i) for i in range(16)]
+    return [("trees", n // 16, i) for i in range(16)] + [("permissions",)]
 
 
 def main(tier, seed):
